@@ -174,9 +174,13 @@ impl EmmyLuaAnalysis {
                 }
             }
         }
-        self.compilation
-            .remove_index(removed_files.into_iter().collect());
-        let updated_files: Vec<FileId> = updated_files.into_iter().collect();
+        // analyse in file-id (= registration) order: the iteration order of the hash sets must
+        // not influence the results
+        let mut removed_files: Vec<FileId> = removed_files.into_iter().collect();
+        removed_files.sort();
+        self.compilation.remove_index(removed_files);
+        let mut updated_files: Vec<FileId> = updated_files.into_iter().collect();
+        updated_files.sort();
         self.compilation.update_index(updated_files.clone());
         updated_files
     }
